@@ -2516,6 +2516,8 @@ fn main() {
                     "selector": d.selector, "file": d.file, "slice": d.is_slice,
                     "name": if d.is_slice && !last_text_fn.is_empty() { last_text_fn.clone() } else if d.hoist.is_some() && !hoist_name.is_empty() { hoist_name.clone() } else { d.name.clone().unwrap_or_else(|| f.sig.ident.to_string()) },
                     "src_lines": [line_of(&src.text, src_range.0), line_of(&src.text, src_range.1)],
+                    "src_bytes": [src_range.0, src_range.1],
+                    "fn_bytes": [f.sig.span().byte_range().start, f.block.span().byte_range().end],
                     "out_lines": [l0, cur_line(&output)],
                     "awaits_erased": ed.awaits,
                     "closures": ed.closure_idx, "loops": ed.loop_idx,
